@@ -39,6 +39,7 @@ for all of the top-level scoping units encountered during parsing.
 
 """
 
+import copy
 from collections import namedtuple
 
 
@@ -100,10 +101,12 @@ class SymbolTables:
 
         def _record(table):
             # pylint: disable=protected-access
+            # ModuleUse objects are updated in place when a module is
+            # USEd more than once so they must be copied too.
             return (
                 table,
                 dict(table._data_symbols),
-                dict(table._modules),
+                copy.deepcopy(table._modules),
                 [_record(child) for child in table._children],
             )
 
